@@ -382,8 +382,41 @@ func init() {
 	})
 }
 
+// c09ListOrderProbe is the directed input of two known findings about how patches are gathered from the command line:
+// of several -P lists only the last one is used, and the patches given with -p always run before those of a -P list,
+// whatever the order on the command line.
+func c09ListOrderProbe(ctx *core.Ctx, res *core.Result) {
+	dir, _ := os.MkdirTemp(ctx.Tmp, "c09p")
+	defer os.RemoveAll(dir)
+	os.WriteFile(filepath.Join(dir, "c1.patch"), []byte("@@\n@@\n-probeFoo()\n+probeBar()\n"), 0o644)
+	os.WriteFile(filepath.Join(dir, "c2.patch"), []byte("@@\n@@\n-probeBar()\n+probeBaz()\n"), 0o644)
+	os.WriteFile(filepath.Join(dir, "l1.txt"), []byte("c1.patch\n"), 0o644)
+	os.WriteFile(filepath.Join(dir, "l2.txt"), []byte("c2.patch\n"), 0o644)
+	src := "package p\n\nfunc f() {\n\tprobeFoo()\n}\n"
+	run := func(args ...string) string {
+		os.WriteFile(filepath.Join(dir, "x.go"), []byte(src), 0o644)
+		ctx.RunCLI(core.CLIOpts{Dir: dir, Args: append(args, "x.go")})
+		b, _ := os.ReadFile(filepath.Join(dir, "x.go"))
+		return string(b)
+	}
+	res.Evals++
+	if out := run("-p", "c1.patch", "-p", "c2.patch"); !strings.Contains(out, "probeBaz()") {
+		res.Violate("C09/combined-differs-from-chain/list-order-probe", "-p c1.patch -p c2.patch does not give probeBaz()", map[string]string{"actual.go": out})
+		return
+	}
+	if out := run("-P", "l1.txt", "-P", "l2.txt"); !strings.Contains(out, "probeBaz()") {
+		res.Violate("C09/only-the-last-P-list-is-used", "'-P l1.txt -P l2.txt' (c1: probeFoo->probeBar, c2: probeBar->probeBaz) leaves "+strings.TrimSpace(strings.Split(out, "\n")[3]), map[string]string{"actual.go": out})
+	}
+	if out := run("-P", "l1.txt", "-p", "c2.patch"); !strings.Contains(out, "probeBaz()") {
+		res.Violate("C09/p-patches-run-before-P-lists", "'-P l1.txt -p c2.patch' runs c2 before the list: "+strings.TrimSpace(strings.Split(out, "\n")[3]), map[string]string{"actual.go": out})
+	}
+}
+
 func runC09(ctx *core.Ctx, idx int) *core.Result {
 	res := &core.Result{}
+	if idx%48 == 13 {
+		c09ListOrderProbe(ctx, res)
+	}
 	r := ctx.Rand("c09", idx)
 	g := gen.NewG(r)
 	g.NoParen = true
